@@ -12,6 +12,18 @@ RULE = ('valid stream: all 256 single bytes, all 65,536 byte pairs (grouped by f
         '(model and implementation must agree on KeyError); every evaluation converts bytes->text->UTF-8->text->bytes '
         'in the implementation, compares each stage with the extracted model and evaluates holds_C15 on the '
         'implementation output; distinct+non-trivial = distinct input strings of length >= 1')
+CLAIM = dict(
+    text=("Theorems C15_roundtrip, C15_distinct_prefix_free, C15_utf8, C15_utf8_roundtrip (Coq, closed under the global "
+          "context), for byte strings of every length: proved by induction from decidable table conditions "
+          "(table_ok, prefix_free, scalars_ok) that are recomputed by vm_compute on the P8SCII tables regenerated from "
+          "lua.py's runtime values on every run; UTF-8 encodability and decode(encode)=id are proved for the RFC 3629 "
+          "codec in Base/Utf8.v. Tie: the two 6-line converters are hand-modelled and compared with the real ones on "
+          "all 256 bytes, all 65,536 pairs, random long strings and malformed Unicode; holds_C15 (extracted) is "
+          "evaluated on the implementation's outputs, including Python's own UTF-8 codec."),
+    note=("Trusted: Coq kernel+VM, table dump in gen/kernels.py (import-based), ExtrOcamlBasic extraction, OCaml glue, "
+          "the modelling of Python str as code-point lists and of dict lookup as association lists."),
+    technique='Coq proof (induction + vm_compute side conditions on regenerated tables) + correspondence + extracted monitor',
+    design_ref='8 C15')
 ASSUMPTIONS = ['Python str is modelled as a list of code points; CPython\'s UTF-8 codec is modelled by Base/Utf8.v (RFC 3629) and compared on every case']
 
 
